@@ -51,3 +51,10 @@ def run(cmd, timeout=None, env=None, input=None, cwd=None):
 
 def log(*a):
     print(*a, file=sys.stderr, flush=True)
+
+
+class HarnessBuildError(SystemExit):
+    """the generated C++ harness does not compile / link against /repo's current tree"""
+    def __init__(self, log):
+        SystemExit.__init__(self, 3)
+        self.log = log
